@@ -14,10 +14,15 @@ git -C "$wt" apply "$patch" || { echo "patch does not apply"; exit 2; }
 mkdir -p "$run"
 rsync -a --exclude .git --exclude out --exclude harness/scratch --exclude .cache /verif/ "$run/verif/"
 cd "$run/verif"
+# a throw-away hard-link clone of the shared Go build cache: building the harness from this private copy (another
+# directory, hence other cache keys) must not grow the shared cache (it once reached 77 GB over 300 such runs)
+shared=$(GOPROXY=off GONOSUMDB='*' GOFLAGS=-mod=mod GOTOOLCHAIN=auto GOWORK=off go env GOCACHE 2>/dev/null)
+if [ -n "$shared" ] && [ -d "$shared" ] && cp -al "$shared" "$run/gocache" 2>/dev/null; then export GOCACHE="$run/gocache"; fi
 for id in "$@"; do
   start=$(date +%s)
   VERIF_REPO=$wt VERIF_SEED=${VERIF_SEED:-1} ./run $id $tier > "$run/$id.log" 2>&1
   rc=$?
   echo "seeded=$sid check=$id rc=$rc secs=$(( $(date +%s)-start )) $(grep -a '^VIOLATION' "$run/$id.log" | head -2 | tr '\n' ' ')"
 done
+rm -rf "$run/gocache"
 git -C /repo worktree remove --force "$wt"; rm -rf "$wt"
